@@ -30,6 +30,21 @@ pub mod siphasher {
         }
     }
 }
+pub mod chrono {
+    use vstd::prelude::*;
+    use crate::shim::*;
+    /// chrono::Utc::now().to_rfc2822(): some string (the wall clock), assumed to contain no line feed
+    pub struct Utc;
+    pub struct DateTime { pub t: u64 }
+    pub struct Rfc2822 { pub t: u64 }
+    pub uninterp spec fn rfc2822_bytes(t: u64) -> Seq<u8>;
+    pub open spec fn no_lf(s: Seq<u8>) -> bool { forall|i: int| 0 <= i < s.len() ==> s[i] != 10u8 }
+    #[verifier::external_body]
+    pub broadcast proof fn axiom_rfc2822_no_lf(t: u64) ensures #[trigger] no_lf(rfc2822_bytes(t)), rfc2822_bytes(t).len() <= 64 {}
+    impl FmtDisp for Rfc2822 { open spec fn disp(&self) -> Seq<u8> { rfc2822_bytes(self.t) } }
+    impl Utc { #[verifier::external_body] pub fn now() -> (r: DateTime) { unimplemented!() } }
+    impl DateTime { #[verifier::external_body] pub fn to_rfc2822(&self) -> (r: Rfc2822) ensures r.t == self.t { unimplemented!() } }
+}
 pub mod byteorder {
     use vstd::prelude::*;
     use crate::shim::*;
